@@ -128,7 +128,8 @@ fn round_trip<T: Serialize + DeserializeOwned>(
         }
         Ok(Err(e)) => {
             if c.wplan.hard.is_none() {
-                return Err(Violation::new("transparent-fault-failed", what, format!("to_writer failed under short writes / Interrupted only: {}", e)));
+                let class = if c.wplan.is_clean() { "serialize-failed" } else { "transparent-fault-failed" };
+                return Err(Violation::new(class, what, format!("to_writer failed although the sink only took short writes / Interrupted at most: {}", e)));
             }
             rec.count("hard_write_reported");
             if !clean.starts_with(&data) {
@@ -160,7 +161,8 @@ fn round_trip<T: Serialize + DeserializeOwned>(
         }
         Ok(Err(e)) => {
             if c.rplan.hard.is_none() {
-                return Err(Violation::new("transparent-fault-failed", what, format!("from_reader failed under short reads / Interrupted only: {}", e)));
+                let class = if c.rplan.is_clean() { "round-trip-failed" } else { "transparent-fault-failed" };
+                return Err(Violation::new(class, what, format!("from_reader rejected the bytes to_writer produced (source took short reads / Interrupted at most): {}", e)));
             }
             rec.count("hard_read_reported");
         }
